@@ -1049,6 +1049,169 @@ def gen_neldermead(ctx, cases, n_cases):
 
 
 # ----------------------------------------------------------------------------------------
+# _check_params / _nelder_mead_algorithm (caller-supplied simplex and coefficients) / brent_max argument checks
+
+
+def gen_nmalgo(ctx, cases):
+    import importlib
+    nm_mod = importlib.import_module("quantecon.optimize.nelder_mead")
+    from quantecon.optimize.scalar_maximization import brent_max
+    rng = ctx.rng
+
+    def mat(m):
+        return "-" if len(m) == 0 else ";".join(",".join(fx(v) for v in row) for row in m)
+
+    # ---- _check_params: every inequality at, just inside and just outside its boundary; every bounds shape ----
+    grid = {"rho": [1.0, 0.5, 2.0, 0.0, -0.25, 1e-300], "chi": [2.0, 1.0, 0.99, 3.5, 1.5], "gamma": [0.5, 0.0, 1.0, -0.1, 1.01, 0.25],
+            "sigma": [0.5, 0.0, 1.0, -0.5, 1.5, 0.75]}
+    for it in range(ctx.n(60, 600)):
+        n = rng.choice([1, 2, 3])
+        if rng.random() < 0.5:
+            rho, chi, gam, sig = 1.0, 2.0, 0.5, 0.5
+            which = rng.choice(list(grid) + ["none"])
+            if which != "none":
+                v = rng.choice(grid[which])
+                rho, chi, gam, sig = (v if which == "rho" else rho, v if which == "chi" else chi,
+                                      v if which == "gamma" else gam, v if which == "sigma" else sig)
+        else:
+            rho, chi, gam, sig = (rng.choice(grid[k]) for k in ("rho", "chi", "gamma", "sigma"))
+        shape = rng.choice(["(n,2)", "(n,2)", "(0,2)", "(0,2)", "(n,2) lo>hi", "(n,2) lo=hi", "(n+1,2)", "(n-1,2)", "(n,3)", "(0,3)", "(n,1)"])
+        if shape == "(0,2)":
+            b = np.empty((0, 2))
+        elif shape == "(0,3)":
+            b = np.empty((0, 3))
+        elif shape == "(n,3)":
+            b = np.array([[0.0, 1.0, 2.0]] * n)
+        elif shape == "(n,1)":
+            b = np.array([[0.0]] * n)
+        else:
+            rows = n + 1 if shape == "(n+1,2)" else n - 1 if shape == "(n-1,2)" else n
+            b = np.array([[float(dyad(rng, -4, 0, 2)), float(dyad(rng, 1, 4, 2))] for _ in range(rows)]).reshape(rows, 2)
+            if shape == "(n,2) lo>hi":
+                i = rng.randrange(n)
+                b[i, 0], b[i, 1] = b[i, 1], b[i, 0]
+            if shape == "(n,2) lo=hi":
+                b[rng.randrange(n), 1] = b[rng.randrange(n), 0] if n == 1 else b[0, 0]
+                b[0, 1] = b[0, 0]
+        try:
+            nm_mod._check_params(rho, chi, gam, sig, b, n)
+            out = "ok"
+        except ValueError:
+            out = "ERR:ValueError"
+        ctx.count("checkparams:" + out)
+        ctx.count("checkparams:shape:" + shape)
+        rep = {"op": "_check_params", "rho": rho, "chi": chi, "gamma": gam, "sigma": sig, "bounds": b.tolist(),
+               "bounds_shape": list(b.shape), "n": n, "got": out}
+        shape_ok = b.shape == (0, 2) or b.shape == (n, 2)
+        crossed = shape_ok and b.shape[0] > 0 and bool((b[:, 0] > b[:, 1]).any())
+        clearly_bad = rho < 0 or chi < 1 or chi < rho or gam < 0 or gam > 1 or sig < 0 or sig > 1 or not shape_ok or crossed
+        on_boundary = (not clearly_bad) and (rho == 0 or chi == 1 or chi == rho or gam in (0.0, 1.0) or sig in (0.0, 1.0))
+        if clearly_bad and out != "ERR:ValueError":
+            ctx.spec_fail("nm_check_params_accepts_invalid", "_check_params accepted an invalid combination", rep)
+        if not clearly_bad and not on_boundary and out != "ok":
+            ctx.spec_fail("nm_check_params_rejects_valid", "_check_params rejected a valid combination", rep)
+        if on_boundary:
+            ctx.count("checkparams:boundary-value:" + out)
+            if out == "ok":
+                # the messages say "strictly" (rho > 0, chi > max(1, rho), 0 < gamma, sigma < 1); the tests are weak
+                finding(ctx, "nm_check_params_boundary_accepted", "_check_params accepts a boundary value that its own message "
+                        "excludes (rho=0, chi=1, chi=rho, gamma or sigma in {0,1})", rep)
+        cases.append(Case("C17 checkparams sc=float rho=%s chi=%s gamma=%s sigma=%s br=%d bc=%d bounds=%s n=%d" % (
+            fx(rho), fx(chi), fx(gam), fx(sig), b.shape[0], b.shape[1], mat(b.tolist()), n), out,
+            nontrivial=(out == "ok" or shape.startswith("(n,2)")), tag="checkparams"))
+
+    # ---- brent_max: non-finite end points (malformed stream) ----
+    eh = -((X - C(0.3)) * (X - C(0.3)))
+    ah = eh.arrays()
+    SQ = float(np.sqrt(2.2e-16))
+    GM = float(0.5 * (3.0 - np.sqrt(5.0)))
+    for a_, b_ in [(math.inf, 1.0), (-math.inf, 1.0), (0.0, math.inf), (0.0, -math.inf), (math.nan, 1.0), (0.0, math.nan),
+                   (-math.inf, math.inf), (math.nan, math.nan), (1.0, 1.0), (2.0, 1.0), (0.0, 1.0)]:
+        try:
+            xf, fval, info = brent_max(_f1, a_, b_, args=ah, xtol=1e-5, maxiter=50)
+            out = "%s %s %d %d" % (fx(float(xf)), fx(float(fval)), int(info[0]), int(info[1]))
+        except ValueError:
+            out = "ERR:ValueError"
+        ctx.count("brentmax:argument-check:" + ("raised" if out.startswith("ERR") else "ran"))
+        bad = not (math.isfinite(a_) and math.isfinite(b_) and a_ < b_)
+        if bad != (out == "ERR:ValueError"):
+            ctx.spec_fail("brent_max_argument_check", "brent_max(a=%r, b=%r): %s" % (a_, b_, out), {"a": repr(a_), "b": repr(b_), "got": out})
+        cases.append(Case("C17 brentmax sc=float f=%s a=%s b=%s xtol=%s sqrteps=%s gm=%s maxiter=50" % (
+            eh.wire(), fx(a_), fx(b_), fx(1e-5), fx(SQ), fx(GM)), out, nontrivial=not bad, tag="brentmax-args"))
+
+    # ---- _nelder_mead_algorithm with caller-supplied simplex and coefficients (a separate compilation of the whole
+    # routine: one quick run in six, every thorough run) ----
+    if not ctx.thorough and rng.randrange(6) != 0:
+        return
+    for it in range(ctx.n(40, 300)):
+        n = rng.choice([1, 2, 2, 3])
+        L = [[float(dyad(rng, -2, 2, 2)) if j <= i else 0.0 for j in range(n)] for i in range(n)]
+        A = [[sum(L[i][t] * L[j][t] for t in range(n)) + (float(dyad(rng, 1, 8, 2)) if i == j else 0.0) for j in range(n)] for i in range(n)]
+        c = [float(dyad(rng, -4, 4, 3)) for _ in range(n)]
+        k = float(dyad(rng, -3, 3, 2))
+        base = [ci + float(dyad(rng, -3, 3, 3)) for ci in c]
+        V = [list(base)] + [[bj + (float(dyad(rng, 1, 16, 4)) * rng.choice([1, -1]) if j == i else float(dyad(rng, -4, 4, 4)) / 4)
+                             for j, bj in enumerate(base)] for i in range(n)]
+        rho = rng.choice([1.0, 1.0, 1.5, 0.75])
+        chi = rng.choice([2.0, 2.5, 3.0])
+        gam = rng.choice([0.5, 0.25, 0.75])
+        sig = rng.choice([0.5, 0.5, 0.25, 0.75])
+        if rng.random() < 0.12:
+            which = rng.randrange(4)
+            rho, chi, gam, sig = (-1.0 if which == 0 else rho, 0.5 if which == 1 else chi, 1.5 if which == 2 else gam, -0.5 if which == 3 else sig)
+        kind = rng.choice(["free", "free", "box", "box-cut"])
+        if kind == "free":
+            bounds = np.empty((0, 2))
+        elif kind == "box":
+            bounds = np.array([[min(v[j] for v in V) - 2.0, max(max(v[j] for v in V), c[j]) + 2.0] for j in range(n)])
+        else:
+            bounds = np.array([[base[j] - 0.25, base[j] + 3.0] for j in range(n)])
+        tol_f, tol_x, max_iter = rng.choice([1e-10, 1e-6]), rng.choice([1e-10, 1e-6]), rng.choice([500, 500, 40, 3, 0])
+        An, cn = np.array(A).reshape(n, n), np.array(c)
+        Vn = np.array(V)
+        try:
+            res = nm_mod._nelder_mead_algorithm(_quad, Vn, bounds, (An, cn, k), rho, chi, gam, sig, tol_f, tol_x, max_iter)
+            x, fun = [float(t) for t in res.x], float(res.fun)
+            simplex = res.final_simplex.tolist()
+            out = "%s %s %d %d %s" % (",".join(fx(v) for v in x), fx(fun), 1 if res.success else 0, int(res.nit), mat(simplex))
+        except ValueError:
+            res, out = None, "ERR:ValueError"
+        ctx.count("nmalgo:" + ("ERR" if res is None else "ran") + ":" + kind)
+        rep = {"op": "_nelder_mead_algorithm", "A": A, "c": c, "k": k, "vertices": V, "bounds": bounds.tolist(), "rho": rho, "chi": chi,
+               "gamma": gam, "sigma": sig, "tol_f": tol_f, "tol_x": tol_x, "max_iter": max_iter, "got": out[:200]}
+        bad = rho < 0 or chi < 1 or chi < rho or not (0 <= gam <= 1) or not (0 <= sig <= 1)
+        if bad != (res is None):
+            ctx.spec_fail("nm_algorithm_param_check", "_nelder_mead_algorithm: coefficients %s, got %s" % (
+                "invalid" if bad else "valid", out[:40]), rep)
+        if res is not None:
+            def feas(v):
+                return bounds.shape[0] == 0 or all(bounds[j, 0] <= v[j] <= bounds[j, 1] for j in range(n))
+            if not any(x == v for v in simplex):
+                ctx.spec_fail("nm_vertex", "_nelder_mead_algorithm: x is not a row of final_simplex", rep)
+            if feas(x):
+                fchk = float(_quad.py_func(np.array(x), An, cn, k))
+                if fx(fchk) != fx(fun) and not (fchk == 0 and fun == 0):
+                    ctx.spec_fail("nm_fun", "_nelder_mead_algorithm: fun=%r is not f(x)=%r" % (fun, fchk), rep)
+            init_feas = [v for v in V if feas(v)]
+            if init_feas:
+                if not feas(x):
+                    ctx.spec_fail("nm_bounds", "_nelder_mead_algorithm: x infeasible although a starting row is feasible", rep)
+                elif tol_f > 0:
+                    best0 = max(quad_exact(A, c, k, v) for v in init_feas)
+                    if quad_exact(A, c, k, x) < best0 - 64 * Fraction(EPS) * (abs(best0) + 1):
+                        ctx.spec_fail("nm_monotone", "_nelder_mead_algorithm: f(x) is below the best starting row", rep)
+                frows = [v for v in simplex if feas(v)]
+                if frows and feas(x) and max(float(_quad.py_func(np.array(v), An, cn, k)) for v in frows) > fun:
+                    ctx.spec_fail("nm_x_not_best_row", "_nelder_mead_algorithm: a feasible row of final_simplex beats fun", rep)
+            if int(res.nit) > max_iter or (bool(res.success) != (int(res.nit) < max_iter)):
+                ctx.spec_fail("nm_status", "_nelder_mead_algorithm: nit=%d success=%s max_iter=%d" % (res.nit, res.success, max_iter), rep)
+        cases.append(Case("C17 nmalgo sc=float A=%s c=%s k=%s verts=%s br=%d bc=%d bounds=%s rho=%s chi=%s gamma=%s sigma=%s tolf=%s tolx=%s "
+                          "maxiter=%d pinf=%s" % (mat(A), ",".join(fx(v) for v in c), fx(k), mat(V), bounds.shape[0], bounds.shape[1],
+                                                  mat(bounds.tolist()), fx(rho), fx(chi), fx(gam), fx(sig), fx(tol_f), fx(tol_x), max_iter,
+                                                  fx(math.inf)), out, nontrivial=(res is not None and res.nit >= 2), tag="nmalgo"))
+
+
+# ----------------------------------------------------------------------------------------
 # hardening streams: argument forms, histories, aliasing (every public entry point)
 
 
@@ -1482,6 +1645,7 @@ def run(ctx):
     gen_open_special(ctx, cases)
     gen_brentmax(ctx, cases, ctx.n(300, 4000))
     gen_neldermead(ctx, cases, ctx.n(300, 3000))
+    gen_nmalgo(ctx, cases)
     gen_hardening(ctx, cases)
     gen_transcendental(ctx, ctx.n(20, 200))
     ctx.assumptions.append("doubles vs exact arithmetic: theorems are over ordered fields; the Float instance of the "
